@@ -2,9 +2,12 @@
   driver handler: requests of the verdict-level properties (C02, C09, C10, C11).
     embeds <L'> <L>        does logic L (stronger) extend L' (weaker) at table level (documented tables)
                            answer: ok | bad <failing parts …>
+    reflexive <L>          does every literal set containing both trunk constraints of one sentence close (C10)
+                           answer: ok | bad
 -/
 import Ptx.Wire
 import Ptx.Sem.Extends
+import Ptx.Tab.Structural
 import Ptx.Sem.Sem
 import Ptx.Gen.All
 namespace Ptx.Drv.Sat
@@ -19,6 +22,10 @@ def handle (ts : List String) : Option String :=
           if L'.sem.embedsB L.sem then some "ok"
           else some ("bad " ++ " ".intercalate (L'.sem.embedsBad L.sem))
       | _, _ => some "err:unknown-logic"
+  | ["reflexive", l] =>
+      match Gen.byName l with
+      | some L => some (if L.closesTrunkPairB then "ok" else "bad")
+      | none => some "err:unknown-logic"
   | _ => none
 
 end Ptx.Drv.Sat
